@@ -8,6 +8,12 @@
   with the implementation's own LP results).  Helper lemmas: SmoothProofs/C14{Rows,Bern,Mean,Glue,Scan,Kkt,Gram,Dubins,DubinsCcc,Global}.lean
   (`C14.seg`, `C14.P`, `C14.Q` — the segment polynomials — are defined in C14Mean.lean).
 
+  Proved since round 2 (formerly `…_statement` only): `monomial_integral_gram/psd` (the cost table is
+  the Gram matrix of the O-th monomial derivatives), `kkt_entries_are_block_matrix` +
+  `kkt_cost_posdef` + `fit_kkt_solution_is_minimiser` (the triplet list IS `[Q Aᵀ; A 0]`, `Q` is
+  symmetric positive definite, a solution of the assembled system is the strict minimiser), and
+  `dubins_ccc_reaches_target` (RLR / LRL end pose, boundary `d13 = 4R` included).
+
   Parameters of the model (contract audited by the check, not proved): the sparse solves
   (`SparseLU` on the constraint system / on the KKT system) and `lp2d::solve`.  Every theorem below is about what the code
   does AROUND them: which linear system it poses and what its solutions mean (`rows_mean_constraints`
@@ -38,6 +44,7 @@ import SmoothProofs.C14Dubins
 import SmoothProofs.C14Global
 import SmoothProofs.C14Gram
 import SmoothProofs.C14DubinsCcc
+import SmoothProofs.C14KktFit
 import Mathlib.Tactic.NormNum
 
 open Polynomial Scalar Lin
@@ -236,6 +243,58 @@ theorem cost_block_posdef_monomial (K O : ℕ) (B : Matrix (Fin (K + 1)) (Fin (K
         + ε • (1 : Matrix (Fin (K + 1)) (Fin (K + 1)) ℝ)) d :=
   (cost_block_posdef _ B (fun d => (monomial_integral_psd K O d).2.1) (monomial_integral_psd K O d).2.2
     fac ε hfac hε).2 d hd
+
+/-- **kkt_entries_are_block_matrix**: the triplet list `kktEntries` that `fit_spline_1d` inserts
+    into `H` (cost blocks, then every entry of the pruned `A` at `(nC + row, col)` and mirrored at
+    `(col, nC + row)`) IS the block matrix `[Q Aᵀ; A 0]` of `kkt_minimiser`: a vector `z` solves
+    `H z = [0; b]` iff its head `x = z|_{< nC}` and tail `l = z|_{≥ nC}` satisfy
+    `Q x + Aᵀ l = 0`, `A x = b`, with `Q = tripMat qPart` the block-diagonal matrix of the segment
+    cost blocks, `A = rowMat` the dense matrix of the pruned constraint rows and `b` their
+    right-hand sides.  (Entries at equal places add up in `tripMul`; `SparseMatrix::insert` is only
+    defined for distinct places, where this is the entry.) -/
+theorem kkt_entries_are_block_matrix (s : Fit.Spec) (O : ℕ) (τ : ℝ) (dt dx lv rv : List ℝ)
+    (hN : 1 ≤ Fit.nSeg dt dx) (h0 : 0 ≤ s.innCnt)
+    (hl : lv.length = s.leftDeg.length) (hr : rv.length = s.rghtDeg.length) (z : ℕ → ℝ) :
+    (∀ r < s.nCoef (Fit.nSeg dt dx) + s.nEq (Fit.nSeg dt dx),
+        Fit.Kkt.tripMul (Fit.kktEntries s O τ dt dx lv rv) z r = (Fit.kktRhs s dt dx lv rv).getD r 0) ↔
+      Fit.Kkt.IsKKT (Fit.Kkt.tripMat (s.nCoef (Fit.nSeg dt dx)) (Fit.Kkt.qPart s O dt dx))
+        (Fit.Kkt.rowMat (s.nCoef (Fit.nSeg dt dx)) ((Fit.rows s dt dx lv rv).map (Fit.pruneRow τ)))
+        (fun k => ((Fit.rows s dt dx lv rv).map (Fit.pruneRow τ))[k].rhs)
+        (fun c => z c.val) (fun k => z (s.nCoef (Fit.nSeg dt dx) + k.val)) :=
+  Fit.Kkt.kktEntries_iff_isKKT s O τ dt dx lv rv hN (rows_length s dt dx lv rv h0 hl hr) z
+
+/-- the assembled cost matrix `Q` is symmetric, and positive definite as soon as every sampling
+    interval is positive: its quadratic form is `Σ_segments d_segᵀ (dt^{1−2D}·BᵀMB + 1e-6·I) d_seg`
+    and every block is positive definite by `monomial_integral_psd` -/
+theorem kkt_cost_posdef (s : Fit.Spec) (O : ℕ) (dt dx : List ℝ)
+    (hdt : ∀ i < Fit.nSeg dt dx, 0 < dt.getD i 0) :
+    (Fit.Kkt.tripMat (s.nCoef (Fit.nSeg dt dx)) (Fit.Kkt.qPart s O dt dx)).transpose
+        = Fit.Kkt.tripMat (s.nCoef (Fit.nSeg dt dx)) (Fit.Kkt.qPart s O dt dx) ∧
+    ∀ d, d ≠ 0 → 0 < Fit.Kkt.quad (Fit.Kkt.tripMat (s.nCoef (Fit.nSeg dt dx)) (Fit.Kkt.qPart s O dt dx)) d :=
+  ⟨Fit.Kkt.qPart_symm s O dt dx _, fun d hd => Fit.Kkt.qPart_posdef s O dt dx hdt d hd⟩
+
+/-- **fit_kkt_solution_is_minimiser** — the chain closed, for every optimising specification, every
+    degree, every number of segments: if `z` solves the linear system that `fit_spline_1d`
+    assembles (`H z = rhs`, the contract of `SparseLU`), then its first `nC` entries satisfy every
+    (pruned) constraint row and have strictly smaller cost `xᵀQx` than any other coefficient
+    vector that satisfies them. -/
+theorem fit_kkt_solution_is_minimiser (s : Fit.Spec) (O : ℕ) (τ : ℝ) (dt dx lv rv : List ℝ)
+    (hN : 1 ≤ Fit.nSeg dt dx) (h0 : 0 ≤ s.innCnt)
+    (hl : lv.length = s.leftDeg.length) (hr : rv.length = s.rghtDeg.length)
+    (hdt : ∀ i < Fit.nSeg dt dx, 0 < dt.getD i 0) (z : ℕ → ℝ)
+    (hsol : ∀ r < s.nCoef (Fit.nSeg dt dx) + s.nEq (Fit.nSeg dt dx),
+        Fit.Kkt.tripMul (Fit.kktEntries s O τ dt dx lv rv) z r = (Fit.kktRhs s dt dx lv rv).getD r 0) :
+    Fit.RowsSat ((Fit.rows s dt dx lv rv).map (Fit.pruneRow τ)) z ∧
+    ∀ y : ℕ → ℝ, Fit.RowsSat ((Fit.rows s dt dx lv rv).map (Fit.pruneRow τ)) y →
+      (fun c : Fin (s.nCoef (Fit.nSeg dt dx)) => y c.val) ≠ (fun c => z c.val) →
+      Fit.Kkt.quad (Fit.Kkt.tripMat (s.nCoef (Fit.nSeg dt dx)) (Fit.Kkt.qPart s O dt dx)) (fun c => z c.val)
+        < Fit.Kkt.quad (Fit.Kkt.tripMat (s.nCoef (Fit.nSeg dt dx)) (Fit.Kkt.qPart s O dt dx)) (fun c => y c.val) := by
+  have hk := (kkt_entries_are_block_matrix s O τ dt dx lv rv hN h0 hl hr z).1 hsol
+  have hcols := Fit.Kkt.pruned_cols s τ dt dx lv rv hN
+  obtain ⟨hsym, hpd⟩ := kkt_cost_posdef s O dt dx hdt
+  refine ⟨(Fit.Kkt.rowMat_mulVec_eq_iff _ _ hcols z).1 hk.2, fun y hy hne => ?_⟩
+  exact (kkt_minimiser_unique _ _ _ hsym (fun d _ hd => hpd d hd) _ _ hk).1 _
+    ((Fit.Kkt.rowMat_mulVec_eq_iff _ _ hcols y).2 hy) hne
 
 /-! ### first / last cumulative coefficient and rest at the ends -/
 
@@ -603,6 +662,37 @@ example : Dubins.CccFeasible (mk4 3 0 0 1) 1 .R ∧ Dubins.CccFeasible (mk4 3 0 
 example : (Fit.monoIntegral (α := ℝ) 3 1) 2 3 = 3 / 2 := by
   rw [monomial_integral_entries]
   norm_num [Nat.descFactorial]
+
+/-- a tiny optimising specification (degree 1, `OptDeg = 1`, one segment from 0 to 1, `dt = 1`):
+    `nC = 2`, two value rows, `Q = [[1+ε, −1], [−1, 1+ε]]`; the vector `z = (0, 1, 1, −(1+ε))`
+    solves the assembled 4 × 4 system, so every hypothesis of `fit_kkt_solution_is_minimiser` holds -/
+def specTiny : Fit.Spec := ⟨1, some 1, 0, [], []⟩
+
+example : ∀ r < specTiny.nCoef (Fit.nSeg [(1 : ℝ)] [(1 : ℝ)]) + specTiny.nEq (Fit.nSeg [(1 : ℝ)] [(1 : ℝ)]),
+    Fit.Kkt.tripMul (Fit.kktEntries specTiny 1 0 [1] [1] [] [])
+        (fun c => ([0, 1, 1, -(1 + 1 / 1000000)] : List ℝ).getD c 0) r
+      = (Fit.kktRhs specTiny [1] [1] [] []).getD r 0 := by
+  intro r hr
+  have hr' : r < 4 := by simpa [specTiny, Fit.Spec.nCoef, Fit.Spec.nEq, Fit.nSeg] using hr
+  have hP : ∀ i j : Fin 2, (Fit.costP (α := ℝ) 1 1) i j = if i = j then 1 else -1 := by
+    intro i j
+    fin_cases i <;> fin_cases j <;>
+      simp [Fit.costP, memoM_eq, mmul, vsum, transpose, Fit.bern, Fit.monoIntegral, Fit.bernI, Fit.choose,
+        Fit.descFact, Fit.ofInt, Mat.of]
+  interval_cases r <;>
+    simp [Fit.Kkt.tripMul, Fit.kktEntries, Fit.kktRhs, Fit.rows, Fit.leftRows, Fit.rightRows, Fit.valueRows,
+      Fit.contRows, Fit.segEnt, Fit.pruneRow, Fit.u0tB, Fit.u1tB, Fit.u0tBI, Fit.u1tBI, Fit.bernI, Fit.choose,
+      Fit.fact, Fit.descFact, Fit.ofInt, specTiny, Fit.Spec.nCoef, Fit.Spec.nEq, Fit.nSeg, Fit.costFac, Fit.Spec.D,
+      Fit.ipow, Fit.regEps, hP, List.range_succ, List.finRange_succ, Scalar.abs] <;>
+    norm_num [List.filter_cons, List.flatMap_cons]
+
+example : 1 ≤ Fit.nSeg [(1 : ℝ)] [(1 : ℝ)] ∧ 0 ≤ specTiny.innCnt ∧
+    ([] : List ℝ).length = specTiny.leftDeg.length ∧ ([] : List ℝ).length = specTiny.rghtDeg.length ∧
+    (∀ i < Fit.nSeg [(1 : ℝ)] [(1 : ℝ)], 0 < ([1] : List ℝ).getD i 0) := by
+  refine ⟨by simp [Fit.nSeg], by simp [specTiny], rfl, rfl, ?_⟩
+  intro i hi
+  have : i = 0 := by simp [Fit.nSeg] at hi; omega
+  subst this; simp
 
 /-- a one-segment chain: from 0 to 0.1 in time 1 (coefficients 0.05, 0.05), `t_max = 0.1` -/
 example : Reparam.Chain [⟨1, 1 / 20, 1 / 20, 0⟩] (1 / 10) := by
